@@ -69,6 +69,16 @@ func (e *SymExpr) Seed(t, n time.Time) {
 	e.Calls = append(e.Calls, SymCall{T: t, N: n, Has: true})
 }
 
+// Ended reports whether some call answered "no further match": the expression
+// has no occurrence after that call's instant.
+func (e *SymExpr) Ended() bool {
+	r := false
+	for _, c := range e.Calls {
+		r = Or(r, !c.Has)
+	}
+	return r
+}
+
 // Returned reports whether ts equals a value some call returned.
 func (e *SymExpr) Returned(ts time.Time) bool {
 	r := false
